@@ -1161,6 +1161,17 @@ func (p *Parser) parseCastExpression() (*ast.CastExpression, error) {
 		p.advance() // Consume )
 	}
 
+	// Array type suffix (INTEGER[], TEXT[]), as after the :: operator: the
+	// serialisers write x::int[] as CAST(x AS int[])
+	if p.isType(models.TokenTypeLBracket) {
+		p.advance() // Consume [
+		if !p.isType(models.TokenTypeRBracket) {
+			return nil, p.expectedError("]")
+		}
+		p.advance() // Consume ]
+		dataType += "[]"
+	}
+
 	// Expect closing parenthesis of CAST
 	if !p.isType(models.TokenTypeRParen) {
 		return nil, p.expectedError(")")
